@@ -96,3 +96,24 @@ Proof. intro Hv. unfold q_tw_huber_trap, qch, qphip_trap.
    with ((1 # 2) * ((1 # 2) * (po - pz + k * (4 * gf)))) by (rewrite H, H0, H1; field).
  unfold gf, pz, po. ring. Qed.
 End Partition.
+
+(* ---------------- the regenerated trapezoid kernels composed as the tw_* wrappers compose them ---------------- *)
+Lemma qphi_trap_respects a b c d : respects (qphi_trap a b c d).
+Proof. intros x y E. unfold qphi_trap, Qltb. qcmpp; cbn -[Qmult Qplus Qminus Qopp Qdiv Qinv]; rewrite ?E; reflexivity. Qed.
+
+Lemma tw_trap_gen a b c d alpha v f o : a < b -> b < c -> c < d -> 0 <= v ->
+  let A := XFin a in let B := XFin b in let C := XFin c in let D := XFin d in
+  gen_consistent_expectile (gen_phi_trap A B C D) (gen_phi_prime_trap A B C D) (XFin f) (XFin o) (XFin (1 # 2))
+    =x= XFin (q_tw_sq_trap a b c d f o) /\
+  xmul (XFin 2) (gen_consistent_quantile (gen_g_trap A B C D) (XFin f) (XFin o) (XFin (1 # 2))) =x= XFin (q_tw_abs_trap a b c d f o) /\
+  gen_consistent_quantile (gen_g_trap A B C D) (XFin f) (XFin o) (XFin alpha) =x= XFin (q_tw_quantile_trap a b c d alpha f o) /\
+  xmul (XFin (1 # 2)) (gen_consistent_expectile (gen_phi_trap A B C D) (gen_phi_prime_trap A B C D) (XFin f) (XFin o) (XFin alpha))
+    =x= XFin (q_tw_expectile_trap a b c d alpha f o) /\
+  xmul (XFin (1 # 2)) (gen_consistent_huber (gen_phi_trap A B C D) (gen_phi_prime_trap A B C D) (XFin f) (XFin o) (XFin v))
+    =x= XFin (q_tw_huber_trap a b c d v f o).
+Proof. intros Hab Hbc Hcd Hv. cbv zeta. repeat split.
+ - apply ce_gen_spec; [apply lifts_phi_trap | apply lifts_phip_trap]; auto.
+ - apply xmul_fin_eq. apply cq_gen_spec. apply lifts_g_trap; auto.
+ - apply cq_gen_spec. apply lifts_g_trap; auto.
+ - apply xmul_fin_eq. apply ce_gen_spec; [apply lifts_phi_trap | apply lifts_phip_trap]; auto.
+ - apply xmul_fin_eq. apply ch_gen_spec; [apply lifts_phi_trap | apply lifts_phip_trap | | apply qphi_trap_respects]; auto. Qed.
